@@ -334,9 +334,13 @@ def run_job(job, canary=False):
     res["failed"] = failed
     res["seconds"] = round(time.time() - t0, 2)
     if unwind_fail:
-        res["status"] = "error"
         res["detail"] = "unwinding assertion failed (bound too small): " + \
             ", ".join(e["obligation"] for e in unwind_fail[:5])
+        if any(e["status"] == "FAILURE" for e in failed) and not canary:
+            # counterexamples found below the bound are real paths: report them (the run is incomplete, not wrong)
+            res["status"] = "fail"
+            return res
+        res["status"] = "error"
         return res
     if canary:
         res["obligations"] = 0
